@@ -20,7 +20,8 @@ import (
 //     file) with B = size before and C = size after the run: the full content cut
 //     at any length R, B<=R<=C, optionally followed by a zero-filled extension up
 //     to any length L, R<=L<=C ("unsynced data may be lost or left as a zero-filled
-//     extension"). Reduced mode keeps L in {R, C} only.
+//     extension"). Reduced mode keeps L == R (pure cut at every byte) and, when R is
+//     the start of an unsynced write, L == C (everything after it zero-filled).
 //   - a write flagged Atomic (small in-place rewrite of a single-sector file, see
 //     FS.SetAtomic) is either completely applied or not at all: no partial images.
 //   - a non-appending write to a non-atomic file is applied as a whole (prefix
@@ -227,9 +228,15 @@ func (cp *CrashPoint) Images(ino int) []Image {
 		}
 		B, C := len(states[j]), len(states[m])
 		fullc := states[m]
+		boundary := map[int]bool{}
+		for x := j; x <= m; x++ {
+			boundary[len(states[x])] = true
+		}
 		for R := B; R <= C; R++ {
 			for L := R; L <= C; L++ {
-				if !cp.full && L != R && L != C {
+				// reduced mode: pure cuts at every byte; zero-filled extension only up to the
+				// written end and only when the real data ends at a write boundary
+				if !cp.full && L != R && !(L == C && boundary[R]) {
 					continue
 				}
 				d := make([]byte, L)
